@@ -148,6 +148,8 @@ pub struct View {
     pub recs: Vec<Rec>,
     /// (udp payload size, DO, version) if an OPT record is present.
     pub opt: Option<(u16, bool, u8)>,
+    /// The full 12-bit response code (header bits plus the OPT record's).
+    pub full_rcode: u16,
 }
 
 /// Full structural view of a message; `None` if any part fails to parse.
@@ -206,5 +208,6 @@ pub fn view(bytes: &[u8]) -> Option<View> {
         questions,
         recs,
         opt,
+        full_rcode: msg.opt_rcode().to_int(),
     })
 }
